@@ -44,6 +44,9 @@ Unsupported = gs.Unsupported
 
 OUT_V = "/verif/coq/Gen/ScalarGenEigen.v"
 OUT_JSON = "/verif/_work/gen/scalar_eigen_table.json"
+# abstract version: same trees, the partial / library operations are the fields of an arbitrary
+# interpretation o : ops (coq/Backend/AbsOps.v); the headline theorems of C08 are stated over it
+OUT_ABS_V = "/verif/coq/Gen/ScalarGenEigenAbs.v"
 
 
 def repo():
@@ -304,6 +307,40 @@ def coq(e, zvars=()):
         return "(%s %s)" % (F1[e[1]][0], coq(e[2], zvars))
     if k == "f2":
         return "(%s %s %s)" % (F2[e[1]][0], coq(e[2], zvars), coq(e[3], zvars))
+    raise Unsupported("cannot print %r" % (e[:2],))
+
+
+ABS_F1 = {"exp": "op_exp", "ln": "op_ln", "tanh": "op_tanh", "sin": "op_sin", "cos": "op_cos", "tan": "op_tan",
+          "sqrt": "op_sqrt"}
+
+
+def coq_abs(e, zvars=()):
+    """As coq(), with `/`, pow, exp, log, sqrt, tanh, sin, cos, tan taken from o : ops; + - * unary minus,
+    literals, abs, sign, max/min and comparisons stay the operations of R."""
+    k = e[0]
+    if k == "num":
+        return gs.coq_num(e[1])
+    if k == "v":
+        return "(IZR %s)" % e[1] if e[1] in zvars else e[1]
+    if k == "neg":
+        return "(- %s)" % coq_abs(e[1], zvars)
+    if k == "bin":
+        if e[1] == "/":
+            return "(op_div o %s %s)" % (coq_abs(e[2], zvars), coq_abs(e[3], zvars))
+        return "(%s %s %s)" % (coq_abs(e[2], zvars), e[1], coq_abs(e[3], zvars))
+    if k == "ind":
+        return "(b01 (%s %s %s))" % (CMPS[e[1]], coq_abs(e[2], zvars), coq_abs(e[3], zvars))
+    if k == "ite":
+        return "(if %s %s %s then %s else %s)" % (CMPS[e[1]], coq_abs(e[2], zvars), coq_abs(e[3], zvars),
+                                                coq_abs(e[4], zvars), coq_abs(e[5], zvars))
+    if k == "f1":
+        if e[1] in ABS_F1:
+            return "(%s o %s)" % (ABS_F1[e[1]], coq_abs(e[2], zvars))
+        return "(%s %s)" % (F1[e[1]][0], coq_abs(e[2], zvars))
+    if k == "f2":
+        if e[1] == "pow":
+            return "(op_pow o %s %s)" % (coq_abs(e[2], zvars), coq_abs(e[3], zvars))
+        return "(%s %s %s)" % (F2[e[1]][0], coq_abs(e[2], zvars), coq_abs(e[3], zvars))
     raise Unsupported("cannot print %r" % (e[:2],))
 
 
@@ -686,8 +723,14 @@ def collect():
             got, err = guarded(translate_pown, text, fn)
             if got is not None:
                 coqdef, pydef, bw, s1, s2 = got
+                gs._ABS[0] = True
+                try:
+                    agot, _ = guarded(translate_pown, text, fn)
+                finally:
+                    gs._ABS[0] = False
+                acoqdef = gs.abs_pown_def(agot[0], "e") if agot is not None else None
                 defs.append({"name": "efw_pown", "params": ["x", "k"], "coqdef": coqdef, "pydef": pydef, "src": s1,
-                             "kind": "pown_fw", "update": "="})
+                             "kind": "pown_fw", "update": "=", "acoqdef": acoqdef})
                 defs.append({"name": "ebw_pown", "params": ["x", "y", "gy", "k"], "expr": bw, "src": s2,
                              "kind": "pown_bw", "zvars": ["k"], "update": "+="})
             else:
@@ -754,6 +797,36 @@ def render(defs, errors, files):
     return "\n".join(L) + "\n"
 
 
+def render_abs(defs, errors):
+    L = []
+    w = L.append
+    w("(* GENERATED by translate/gen_scalar_eigen.py from primitiv/devices/eigen/ops/{common.h,*.cc} -- do not edit.")
+    w("   Abstract version of Gen/ScalarGenEigen.v: same parsed trees, `/`, pow, exp, log, sqrt, tanh, sin, cos, tan")
+    w("   are the fields of an arbitrary interpretation o : ops.  Regenerated on every `./check C08`. *)")
+    w("From Coq Require Import Reals ZArith NArith List String.")
+    w("From PV Require Import Scalar.ScalarBase Backend.EigenBase Backend.AbsOps.")
+    w("Import ListNotations.")
+    w("Local Open Scope R_scope.")
+    w("")
+    for d in defs:
+        w("(* %s  %s *)" % (d["src"], d["kind"]))
+        if d.get("coqdef"):
+            if d.get("acoqdef"):
+                w(d["acoqdef"])
+            else:
+                w("Definition a%s : eigen_untranslatable := EUntranslatable \"abstract version not printed\"." % d["name"])
+        elif d.get("expr") is None:
+            w("Definition a%s : eigen_untranslatable := EUntranslatable %s." % (d["name"], coq_string(d.get("error", ""))))
+        else:
+            zv = tuple(d.get("zvars", ()))
+            params = " ".join("(%s : %s)" % (p, "Z" if p in zv else "R") for p in d["params"])
+            w("Definition a%s (o : ops) %s : R :=\n  %s." % (d["name"], params, coq_abs(d["expr"], zv)))
+        w("")
+    w("Definition aegen_names : list string :=")
+    w("  [" + "; ".join('"a%s"' % d["name"] for d in defs) + "]%string.")
+    return "\n".join(L) + "\n"
+
+
 def table(defs, errors, files):
     t = {"repo": repo(), "errors": errors, "defs": {}, "files": files}
     for d in defs:
@@ -772,6 +845,11 @@ def table(defs, errors, files):
 def main():
     defs, errors, files = collect()
     gs.write_if_changed(OUT_V, render(defs, errors, files))
+    try:
+        gs.write_if_changed(OUT_ABS_V, render_abs(defs, errors))
+    except Exception as ex:  # noqa: BLE001  (never raise: a file that does not define the names breaks the theorems)
+        gs.write_if_changed(OUT_ABS_V, "(* GENERATED by translate/gen_scalar_eigen.py: abstract version could not be printed: %s *)\n"
+                            % str(ex).replace("*)", "* )"))
     t = table(defs, errors, files)
     gs.write_if_changed(OUT_JSON, json.dumps(t, indent=1, sort_keys=True))
     return t
